@@ -161,4 +161,15 @@ FINDINGS = [
               '{a TRUE, b NULL} gives 80 ff 02 05 80 00 (3 bits: b, c, d) instead of 80 ff 02 06 80 01 00 (2 bits; the group is the SEQUENCE 00)',
          witness=dict(kind='encode_expect', spec=HDR + 'A ::= SEQUENCE { a BOOLEAN, ..., [[ b NULL, c BOOLEAN OPTIONAL ]], d NULL }' + END,
                       codec='oer', type='A', value={'a': True, 'b': None}, expected_hex='80ff0206800100')),
+    dict(key='oer-c-extension-addition-length-code', props=['C10'],
+         text='generated OER C: the expression that computes the length of an extension addition is only right for primitive inline types; '
+              'an addition whose type is a reference to an ENUMERATED type (e E gives enumerated_value_length((int32_t)src_p->e), e is a struct), '
+              'a SEQUENCE OF with variable-size elements (src_p->l..length), a CHOICE or structured type does not compile '
+              '(source/c/oer.py get_encoded_*_lengths); the generator neither refuses these specifications nor emits valid C',
+         witness=dict(kind='custom', name='oer_c_addition_length_code')),
+    dict(key='oer-c-empty-extension-marker-additions-not-skipped', props=['C10'],
+         text='generated OER C: the decoder of a SEQUENCE with an extension marker and no known additions (SEQUENCE { a BOOLEAN, ... }) reads the '
+              'extension bit but does not skip the additions of a newer version: 80 ff 02 07 80 01 05 returns 2 instead of 7, so members that follow '
+              'such a SEQUENCE are read from the addition octets (source/c/oer.py format_sequence_inner only emits addition code when additions are known)',
+         witness=dict(kind='custom', name='oer_c_empty_marker_not_skipped')),
 ]
